@@ -340,6 +340,38 @@ func envelopeExpect(reg *Registry, v V) (Expect, bool) {
 	}
 }
 
+// singleMethod: the request's method when it has exactly one member spelled "method" up to ASCII case, spelled exactly so
+// and holding a string ("" otherwise) — the reading of Mcp.RpcSpec.requestMethod.
+func singleMethod(v V) string {
+	if v.K != 'o' {
+		return ""
+	}
+	n, m := 0, ""
+	for _, kv := range v.O {
+		if strings.ToLower(kv.K) == "method" && isASCII(kv.K) {
+			n++
+			if kv.K == "method" && kv.V.K == 's' {
+				m = kv.V.S
+			} else {
+				m = ""
+			}
+		}
+	}
+	if n != 1 {
+		return ""
+	}
+	return m
+}
+
+func isASCII(s string) bool {
+	for i := 0; i < len(s); i++ {
+		if s[i] >= 0x80 {
+			return false
+		}
+	}
+	return true
+}
+
 func onlyEnvelopeMembers(v V) bool {
 	for _, kv := range v.O {
 		switch kv.K {
@@ -358,8 +390,9 @@ func isIntegral(n string) bool {
 
 func caseOf(reg *Registry, label string, v V, tags ...string) Case {
 	e, wf := envelopeExpect(reg, v)
-	m, _ := strOf(v, "method")
-	if e.Method == "" {
+	m := singleMethod(v)
+	if e.Class == "free" || e.Method == "" {
+		// the result shape is judged against the method only when the request names exactly one (under any spelling)
 		e.Method = m
 	}
 	return Case{Label: label, Body: []byte(v.Raw()), Exp: e, WF: wf, Common: isCommon(m), Tags: append([]string{"class:" + e.Class}, tags...)}
@@ -396,6 +429,19 @@ var paramMembers = map[string][]string{
 	"completion/complete":   {"ref", "argument"},
 }
 
+// mutationBases: the valid requests mutations start from — without the calls whose handler result cannot be encoded (their
+// silence is the handler outcome's, reported by the valid-request runs, not the mutation's).
+func mutationBases(reg *Registry) []baseReq {
+	var out []baseReq
+	for _, b := range validRequests(reg) {
+		if e := expectFor(reg, b.method, b.params); e.Class == "unencodable" {
+			continue
+		}
+		out = append(out, b)
+	}
+	return out
+}
+
 // MutationCases: exhaustive structural mutation of each valid request: every envelope member and every parameter member
 // the managers read — removed / retyped to each of the seven JSON kinds / duplicated / re-spelled; the whole body retyped.
 func MutationCases(reg *Registry, envelopeOnly bool) []Case {
@@ -407,7 +453,7 @@ func MutationCases(reg *Registry, envelopeOnly bool) []Case {
 			cs = append(cs, c)
 		}
 	}
-	for i, b := range validRequests(reg) {
+	for i, b := range mutationBases(reg) {
 		id := wfIDs[i%4]
 		base := env(id, b.method, b.params)
 		if b.params == nil {
@@ -573,5 +619,101 @@ func GarbageCases(reg *Registry, rng *rand.Rand, thorough bool) []Case {
 	deep("big-method", env(Int(2), strings.Repeat("m", 4096), nil), "")
 	deep("deep-id", env(Deep('a', 200, Int(1)), "ping", nil), "ping")
 	deep("notification-deep", Obj(F("jsonrpc", Str("2.0")), F("method", Str("notifications/x")), F("params", Deep('o', depth, Int(1)))), "")
+	return cs
+}
+
+// ---- random structural fuzz (seeded): valid requests with randomly replaced / added / removed members at any depth
+
+var fuzzKeys = []string{"jsonrpc", "id", "method", "params", "name", "arguments", "uri", "protocolVersion", "_meta", "ref", "type", "cursor",
+	"result", "error", "Method", "ID", "x", "", "é", "a b"}
+var fuzzStrings = []string{"", "x", "2.0", "1.0", "echo", "boom", "p-ok", "verif://r/text", "ping", "tools/call", "initialize", "ref/prompt", "é\n\t\"", " ", "null", "2025-03-26"}
+
+func randV(rng *rand.Rand, depth int) V {
+	k := rng.Intn(9)
+	if depth <= 0 && k >= 7 {
+		k = rng.Intn(7)
+	}
+	switch k {
+	case 0:
+		return Null()
+	case 1:
+		return Bool(rng.Intn(2) == 0)
+	case 2:
+		return Int(int64(rng.Intn(2000) - 1000))
+	case 3:
+		return Num([]string{"0", "-0", "1.5", "2.50", "1e3", "1E2", "-7.25", "9007199254740992", "0.1", "123456789012"}[rng.Intn(10)])
+	case 4, 5, 6:
+		return Str(fuzzStrings[rng.Intn(len(fuzzStrings))])
+	case 7:
+		n := rng.Intn(4)
+		xs := make([]V, n)
+		for i := range xs {
+			xs[i] = randV(rng, depth-1)
+		}
+		return Arr(xs...)
+	default:
+		n := rng.Intn(4)
+		kvs := make([]KV, n)
+		for i := range kvs {
+			kvs[i] = KV{fuzzKeys[rng.Intn(len(fuzzKeys))], randV(rng, depth-1)}
+		}
+		return Obj(kvs...)
+	}
+}
+
+// mutateRandom changes one random place of an object (recursively): replaces a member's value, adds a member, removes one.
+func mutateRandom(rng *rand.Rand, v V, depth int) V {
+	if v.K != 'o' || len(v.O) == 0 {
+		return randV(rng, 2)
+	}
+	i := rng.Intn(len(v.O))
+	switch rng.Intn(5) {
+	case 0:
+		return v.Without(v.O[i].K)
+	case 1:
+		o := append([]KV{}, v.O...)
+		o = append(o, KV{fuzzKeys[rng.Intn(len(fuzzKeys))], randV(rng, 2)})
+		rng.Shuffle(len(o), func(a, b int) { o[a], o[b] = o[b], o[a] })
+		return V{K: 'o', O: o}
+	case 2:
+		if depth > 0 && v.O[i].V.K == 'o' {
+			o := append([]KV{}, v.O...)
+			o[i].V = mutateRandom(rng, o[i].V, depth-1)
+			return V{K: 'o', O: o}
+		}
+		fallthrough
+	default:
+		o := append([]KV{}, v.O...)
+		o[i].V = randV(rng, 2)
+		return V{K: 'o', O: o}
+	}
+}
+
+// FuzzCases: n random inputs around the valid requests (1–3 random edits each) plus entirely random values.
+func FuzzCases(reg *Registry, rng *rand.Rand, n int) []Case {
+	base := mutationBases(reg)
+	var cs []Case
+	seen := map[string]bool{}
+	for len(cs) < n {
+		var v V
+		if rng.Intn(10) == 0 {
+			v = randV(rng, 3)
+		} else {
+			b := base[rng.Intn(len(base))]
+			v = env(wfIDs[rng.Intn(len(wfIDs))], b.method, b.params)
+			for k := 1 + rng.Intn(3); k > 0; k-- {
+				v = mutateRandom(rng, v, 2)
+			}
+		}
+		raw := v.Raw()
+		if seen[raw] {
+			if len(seen) > 50*n {
+				break
+			}
+			continue
+		}
+		seen[raw] = true
+		cs = append(cs, caseOf(reg, fmt.Sprintf("fuzz:%d", len(cs)), v, "fuzz"))
+	}
 	return cs
 }
